@@ -17,20 +17,21 @@ Proof.
   - rewrite nth_overflow by exact Hi. reflexivity.
 Qed.
 
-(* F4a: the step fails, onFailure is chosen and runs; a stop request arrives while it runs; at the end the run is
-   reported canceled although the handler that ran was onFailure *)
+(* F4a, repaired by 08917f8: the step fails, onFailure is chosen and runs; a stop request arrives while it runs; the run
+   stays reported failed - the outcome the handlers ran for.  (Before the fix it was relabelled canceled:
+   findings/C04-F4a-stop-during-handlers.json.) *)
 Definition f4a_pre : list label := launch 0 ++ [WExecEnd 0 false; WAfter 0 false; LExit].
 Definition f4a_post : list label :=
   [HStart HFailure; SigFlag; SigNode false; HEnd HFailure true; HStart HExit; HEnd HExit true; HFinish].
-Lemma f4a_witness :
+Lemma f4a_repaired :
   exists s1 s2 s3, run (one_step 1 false) (init (one_step 1 false)) f4a_pre = Some s1 /\
     step (one_step 1 false) s1 HBegin = Some s2 /\ run (one_step 1 false) s2 f4a_post = Some s3 /\
-    pc s3 = LDone /\ overall (one_step 1 false) s1 = OError /\ hstarts f4a_post = [HFailure; HExit] /\
-    overall (one_step 1 false) s3 = OCancel /\ timedout s3 = false.
+    pc s3 = LDone /\ canceled s3 = true /\ overall (one_step 1 false) s1 = OError /\ hstarts f4a_post = [HFailure; HExit] /\
+    overall (one_step 1 false) s3 = OError.
 Proof.
   do 3 eexists. split; [vm_compute; reflexivity|]. split; [vm_compute; reflexivity|].
   split; [vm_compute; reflexivity|]. split; [vm_compute; reflexivity|]. split; [vm_compute; reflexivity|].
-  split; [reflexivity|]. split; vm_compute; reflexivity.
+  split; [vm_compute; reflexivity|]. split; [reflexivity|]. vm_compute; reflexivity.
 Qed.
 
 (* F5c, repaired by ac08004: the loop has committed the step (it is evaluating the step's precondition) when the stop
@@ -49,29 +50,31 @@ Proof.
   repeat (split; [vm_compute; reflexivity|]). vm_compute; reflexivity.
 Qed.
 
-(* F5a: the first Signal flips the executing node to canceled; the second Signal (the SIGKILL escalation) finds it
-   canceled and forwards nothing, although the command is still executing *)
+(* F5a, repaired by 767545b: the first Signal flips the executing node to canceled; the second Signal (the SIGKILL
+   escalation) still forwards its signal, because the command is still executing.  (Before the fix node.signal only
+   acted on status running: the escalation was a no-op, findings/C05-F5a-escalation-noop.json.) *)
 Definition f5a_exec : list label := launch 0 ++ [SigFlag; SigNode true; SigFlag].
-Lemma f5a_witness :
+Lemma f5a_repaired :
   exists s, run (one_step 2 false) (init (one_step 2 false)) f5a_exec = Some s /\
     ph (nd s 0) = PExec /\ st (nd s 0) = NCancel /\ sigq s = [0] /\
-    step (one_step 2 false) s (SigNode true) = None /\
-    exists s', step (one_step 2 false) s (SigNode false) = Some s' /\ ph (nd s' 0) = PExec.
+    step (one_step 2 false) s (SigNode false) = None /\
+    exists s', step (one_step 2 false) s (SigNode true) = Some s' /\ ph (nd s' 0) = PExec.
 Proof.
   eexists. split; [vm_compute; reflexivity|].
   repeat (split; [vm_compute; reflexivity|]). eexists. split; vm_compute; reflexivity.
 Qed.
 
-(* F5d: after the DAG timeout onFailure and onExit are chosen, but their commands are refused (expired context): they
-   are marked failed and never run *)
+(* F5d, repaired by 246fa0b: after the DAG timeout onFailure and onExit are chosen AND run (the handlers get the context
+   of the whole run, not the steps' deadline).  (Before the fix their commands were refused and they were marked
+   failed without running: findings/C05-F5d-timeout-handlers-refused.json.) *)
 Definition f5d_pre : list label := launch 0 ++ [Timeout; WExecEnd 0 false; WAfter 0 false; LExit].
-Definition f5d_post : list label := [HRefused HFailure; HRefused HExit; HFinish].
-Lemma f5d_witness :
+Definition f5d_post : list label := [HStart HFailure; HEnd HFailure true; HStart HExit; HEnd HExit true; HFinish].
+Lemma f5d_repaired :
   exists s1 s2 s3, run (one_step 0 true) (init (one_step 0 true)) f5d_pre = Some s1 /\
     step (one_step 0 true) s1 HBegin = Some s2 /\ run (one_step 0 true) s2 f5d_post = Some s3 /\
-    pc s3 = LDone /\ handlers_for (one_step 0 true) s1 = [HFailure; HExit] /\ hstarts f5d_post = [] /\
-    step (one_step 0 true) s2 (HStart HFailure) = None /\
-    hatt (hst s3 HFailure) = 0 /\ hs (hst s3 HFailure) = NError /\ hatt (hst s3 HExit) = 0.
+    pc s3 = LDone /\ timedout s3 = true /\ handlers_for (one_step 0 true) s1 = [HFailure; HExit] /\
+    hstarts f5d_post = [HFailure; HExit] /\ st (nd s3 0) = NCancel /\ overall (one_step 0 true) s3 = OError /\
+    hatt (hst s3 HFailure) = 1 /\ hs (hst s3 HFailure) = NSuccess /\ hatt (hst s3 HExit) = 1.
 Proof.
   do 3 eexists. split; [vm_compute; reflexivity|]. split; [vm_compute; reflexivity|].
   repeat (split; [vm_compute; reflexivity|]). vm_compute; reflexivity.
@@ -87,7 +90,7 @@ Proof. split; [reflexivity|]. apply norepeat_mkcfgx. reflexivity. Qed.
 Lemma stop2_witness :
   exists s1 s2 s3, run two_steps (init two_steps) stop2_pre = Some s1 /\
     step two_steps s1 HBegin = Some s2 /\ run two_steps s2 stop2_post = Some s3 /\
-    pc s3 = LDone /\ dry two_steps = false /\ timedout s3 = false /\ canceled s3 = canceled s1 /\
+    pc s3 = LDone /\ dry two_steps = false /\
     overall two_steps s1 = OCancel /\ hstarts stop2_post = [HCancel; HExit] /\
     map (fun i => st (nd s3 i)) [0; 1] = [NCancel; NCancel] /\ pc s1 = LExited.
 Proof.
